@@ -38,6 +38,10 @@ var wideAlphabet = []string{"a", "b", "c", "d", "e", "f", "g", "h", "é", "ñ", 
 var malFragments = []string{
 	"\xff", "\xe4", "\xbd", "\xe4\xbd", "\xf0\x9f\x98", "\xc0\xaf", "\xed\xa0\x80", "\xef\xbf\xbd",
 	"\xa0", "\xef\xbf", "\xef", "\xbf", "\xc3", "\xa9", "\xf0", "\x9f",
+	// boundaries of the encoding: U+007F, stray 0x80, U+0080, U+07FF, U+0800, U+D7FF, U+E000,
+	// U+FFFF, U+10000, U+10FFFF, one beyond (F4 90 80 80), overlong NUL, 0xFE
+	"\x7f", "\x80", "\xc2\x80", "\xdf\xbf", "\xe0\xa0\x80", "\xed\x9f\xbf", "\xee\x80\x80",
+	"\xef\xbf\xbf", "\xf0\x90\x80\x80", "\xf4\x8f\xbf\xbf", "\xf4\x90\x80\x80", "\xc0\x80", "\xfe", "\x00",
 }
 
 // MalUnit: invalid-UTF-8 fragments, genuine U+FFFD, and alphabet runes.
@@ -418,6 +422,12 @@ func GenTrie(r *core.Rand) (pats []Seq, u Unit, tag string) {
 }
 
 func gen(r *core.Rand, tier string) core.Case {
+	if r.Intn(1000) < LargeShare(tier) {
+		return genLarge(r, tier)
+	}
+	if r.Chance(9) {
+		return genHistory(r, tier)
+	}
 	pats, u, tag := GenTrie(r)
 	lines := []string{Header("C05", SeqsBytes(pats))}
 	// structural dump first (independent of the queries): 1 case in 3, 1 in 2 for the
@@ -432,23 +442,72 @@ func gen(r *core.Rand, tier string) core.Case {
 	}
 	nops := r.Range(3, 8)
 	for i := 0; i < nops; i++ {
-		switch r.Pick(18, 34, 28, 20) {
-		case 0:
-			// sparser texts for Match so that `false` and "only a nested pattern occurs" are common
-			if r.Bool() {
-				lines = append(lines, "match "+Hex(GenTextW(r, u, pats, 12, 8, 47, 45).Bytes()))
-			} else {
-				lines = append(lines, "match "+Hex(GenText(r, u, pats, 12).Bytes()))
-			}
-		case 1:
-			lines = append(lines, "findall "+Hex(GenText(r, u, pats, 12).Bytes()))
-		case 2:
-			lines = append(lines, "prefix "+Hex(GenPrefixKey(r, u, pats, tag == "malformed")))
-		default:
-			lines = append(lines, "fuzzy "+Hex(GenFuzzyKey(r, u, pats)))
-		}
+		lines = append(lines, genQuery(r, u, pats, nil, tag == "malformed"))
 	}
 	return core.Case{Lines: lines, Tag: tag}
+}
+
+// genQuery: one query line; focus (may be nil) = texts worth asking about.
+func genQuery(r *core.Rand, u Unit, pats, focus []Seq, cut bool) string {
+	text := func() Seq {
+		if len(focus) > 0 && r.Chance(55) {
+			f := focus[r.Intn(len(focus))]
+			return append(append(RandSeq(r, u, 0, 2), f...), RandSeq(r, u, 0, 2)...)
+		}
+		return GenText(r, u, pats, 12)
+	}
+	switch r.Pick(18, 34, 28, 20) {
+	case 0:
+		// sparser texts for Match so that `false` and "only a nested pattern occurs" are common
+		if len(focus) == 0 && r.Bool() {
+			return "match " + Hex(GenTextW(r, u, pats, 12, 8, 47, 45).Bytes())
+		}
+		return "match " + Hex(text().Bytes())
+	case 1:
+		return "findall " + Hex(text().Bytes())
+	case 2:
+		return "prefix " + Hex(GenPrefixKey(r, u, pats, cut))
+	default:
+		if len(focus) > 0 && r.Chance(40) {
+			return "fuzzy " + Hex(focus[r.Intn(len(focus))].Bytes())
+		}
+		return "fuzzy " + Hex(GenFuzzyKey(r, u, pats))
+	}
+}
+
+// genHistory: Insert…, Build, queries, then 1–3 more rounds of Insert…, Build, dump,
+// queries on the same trie.
+func genHistory(r *core.Rand, tier string) core.Case {
+	pats, u, later := HistoryBase(r)
+	lines := []string{Header("C05", SeqsBytes(pats))}
+	if r.Chance(40) && DumpAvailable() {
+		lines = append(lines, "dump")
+	}
+	for n := r.Range(0, 2); n > 0; n-- {
+		lines = append(lines, genQuery(r, u, pats, nil, false))
+	}
+	rounds := r.Range(1, 2)
+	if tier == "thorough" && r.Chance(30) {
+		rounds = 3
+	}
+	for k := 0; k < rounds; k++ {
+		newp, focus := NextRound(r, u, pats)
+		if len(later) > 0 && (k == rounds-1 || r.Bool()) {
+			newp, later = append(newp, later...), nil
+		}
+		for _, p := range newp {
+			lines = append(lines, "insert "+Hex(p.Bytes()))
+		}
+		lines = append(lines, "build")
+		pats = append(pats, newp...)
+		if r.Chance(70) && DumpAvailable() {
+			lines = append(lines, "dump")
+		}
+		for n := r.Range(2, 4); n > 0; n-- {
+			lines = append(lines, genQuery(r, u, pats, focus, false))
+		}
+	}
+	return core.Case{Lines: lines, Tag: "history"}
 }
 
 func hx(s string) string { return Hex([]byte(s)) }
@@ -464,6 +523,53 @@ func mk(pats []string, ops ...string) core.Case {
 		lines = append(lines, fmt.Sprintf("%s %s", t[0], hx(t[1])))
 	}
 	return core.Case{Lines: lines}
+}
+
+// hist builds a history case: rounds[0] in the header, every later round as
+// `insert`s + `build` + `dump`, followed by the given queries after every build.
+func hist(id string, rounds [][]string, ops ...string) core.Case {
+	bs := func(ps []string) [][]byte {
+		out := make([][]byte, len(ps))
+		for i, p := range ps {
+			out[i] = []byte(p)
+		}
+		return out
+	}
+	lines := []string{Header(id, bs(rounds[0]))}
+	add := func() {
+		for _, o := range ops {
+			t := strings.Fields(o)
+			for j := 1; j < len(t); j++ {
+				if !(t[0] == "mask" && j == 2) {
+					t[j] = hx(t[j])
+				}
+			}
+			lines = append(lines, strings.Join(t, " "))
+		}
+	}
+	add()
+	for _, rd := range rounds[1:] {
+		for _, p := range rd {
+			lines = append(lines, "insert "+hx(p))
+		}
+		lines = append(lines, "build")
+		if id == "C05" {
+			lines = append(lines, "dump")
+		}
+		add()
+	}
+	return core.Case{Lines: lines, Tag: "history"}
+}
+
+// HistoryCorpus: later patterns inside earlier ones (old nodes need new failure links),
+// an empty first build, a rebuild with nothing new, a duplicate arriving later.
+func HistoryCorpus(id string, ops ...string) []core.Case {
+	return []core.Case{
+		hist(id, [][]string{{"abcd", "xbcy"}, {"bc", "c"}}, ops...),
+		hist(id, [][]string{{"ushers"}, {"she", "he"}, {"hers", "s"}}, ops...),
+		hist(id, [][]string{{}, {"a你b", "你"}, {}, {"你b", "a你b"}}, ops...),
+		hist(id, [][]string{{"a\xffb"}, {"\xff", "\xffb"}}, ops...),
+	}
 }
 
 func corpus() []core.Case {
@@ -541,5 +647,7 @@ func corpus() []core.Case {
 		withDump(mk(strings.Fields("ccba abbbb caa acc bbb abaaaa bcc aabac aabab baaa cbcb acb aca bba bca bab cab abbbc bcb cac abca"), "findall abaaaabac", "fuzzy abaaaa")),
 		withDump(mk(strings.Fields("acabc aacb baa bac cab bba ccc acb abac abbb bca cca cba cbc ccb acaa bbb bcb bbc abbc bcc"), "findall acabcabbc", "fuzzy acabc")),
 	)
+	// histories: Insert…, Build, Insert…, Build
+	cases = append(cases, HistoryCorpus("C05", "findall abcdushersa你b", "match xbc", "fuzzy abcd", "prefix a", "findall a\xffb")...)
 	return cases
 }
